@@ -793,6 +793,32 @@ M('C15', 'pivot-datatypes-not-repeated', QX,
   "        datatypes = [columns[col1].datatype] + [col.datatype for col in other(columns)] * len(keys)",
   "        datatypes = [columns[col1].datatype] + [col.datatype for col in other(columns)]", ('R-PIVOTSHAPE', 'execute_query'))
 M('C15', 'pivot-naming-switch-wrong', QX, "        if nother > 1:", "        if nother > 0:", ('R-PIVOTSHAPE', 'execute_query'))
+M('C15', 'pivot-sorted-by-second-column', QX,
+  "        rows.sort(key=operator.itemgetter(col1))", "        rows.sort(key=operator.itemgetter(col2))", ('R-PIVOTSHAPE', 'execute_query'))
+M('C15', 'pivot-sort-descending', QX,
+  "        rows.sort(key=operator.itemgetter(col1))", "        rows.sort(key=operator.itemgetter(col1), reverse=True)", ('R-PIVOTSHAPE', 'execute_query'))
+M('C15', 'pivot-block-too-wide', QX,
+  "                outrow[index:index+nother] = other(row)", "                outrow[index:index+nother+1] = other(row)", ('R-PIVOTSHAPE', 'execute_query'))
+M('C15', 'pivot-fill-zero', QX,
+  "            outrow = [field1] + [None] * (len(columns) - 1)", "            outrow = [field1] + [0] * (len(columns) - 1)", ('R-PIVOTSHAPE', 'execute_query'))
+M('C15', 'pivot-names-column-major', QX,
+  "            it = itertools.product(keys, other(columns))\n            names = [f'{columns[col1].name}/{columns[col2].name}'] + [f'{key}/{col.name}' for key, col in it]",
+  "            it = itertools.product(other(columns), keys)\n            names = [f'{columns[col1].name}/{columns[col2].name}'] + [f'{key}/{col.name}' for col, key in it]",
+  ('R-PIVOTSHAPE', 'execute_query'))
+M('C15', 'pivot-keys-from-first-column', QX,
+  "        keys = sorted({row[col2] for row in rows})", "        keys = sorted({row[col1] for row in rows})", ('R-PIVOTSHAPE', 'execute_query'))
+M('C15', 'pivot-keys-not-distinct', QX,
+  "        keys = sorted({row[col2] for row in rows})", "        keys = sorted([row[col2] for row in rows])", ('R-PIVOTSHAPE', 'execute_query'))
+M('C15', 'pivot-other-includes-pivot-column', QX,
+  "        othercols = [i for i in range(len(columns)) if i not in query.pivots]", "        othercols = [i for i in range(len(columns)) if i != col1]", ('R-PIVOTSHAPE', 'execute_query'))
+M('C15', 'pivot-lead-name-swapped', QX,
+  "            names = [f'{columns[col1].name}/{columns[col2].name}'] + [f'{key}' for key in keys]",
+  "            names = [f'{columns[col2].name}/{columns[col1].name}'] + [f'{key}' for key in keys]", ('R-PIVOTSHAPE', 'execute_query'))
+T('C15', 'twin-pivot-local-getter-and-padding', QX,
+  "        rows.sort(key=operator.itemgetter(col1))\n        for field1, group in itertools.groupby(rows, key=operator.itemgetter(col1)):\n            outrow = [field1] + [None] * (len(columns) - 1)",
+  "        getfield1 = operator.itemgetter(col1)\n        padding = [None] * (len(columns) - 1)\n        rows.sort(key=getfield1)\n        for field1, group in itertools.groupby(rows, key=getfield1):\n            outrow = [field1] + padding")
+T('C15', 'twin-pivot-index-commuted', QX,
+  "                index = keys.index(row[col2]) * nother + 1", "                index = 1 + nother * keys.index(row[col2])")
 
 # ---------------------------------------------------------------------- C19
 R('C19', 'regress-D22-set-accepts-method-names', '8eb2b30--set-only-accepts-the-names-of-settings.diff', ('R-SETTINGS', 'do_set'))
